@@ -14,12 +14,13 @@ PROPS["C10"] = {
                       "VP_C10_Sound2_n3"]},
         {"dir": "types",
          "quick": ["VP_C10_AddPartSym_L2_s1", "VP_C10_AddPartSym_L3_s2", "VP_C10_AddPartSym_L3_s1", "VP_C10_AddPartTamper_L2_s1", "VP_C10_AddPartTamper_L3_s1",
-                   "VP_C10_AddPartTamper_L4_s2", "VP_C10_Complete_L3_s1", "VP_C10_Complete_L5_s2", "VP_C10_Complete_L6_s4"],
+                   "VP_C10_AddPartTamper_L4_s2", "VP_C10_Complete_L3_s1", "VP_C10_Complete_L5_s2", "VP_C10_Complete_L6_s4", "VP_C10_ArbitraryCuts_L3_n3", "VP_C10_ArbitraryCuts_L4_n4"],
          "thorough": ["VP_C10_AddPartSym_L4_s1", "VP_C10_AddPartTamper_L5_s2", "VP_C10_AddPartTamper_L6_s4",
                       "VP_C10_Complete_L6_s1"]},
     ],
     "bounds": {
         "merkle": "trees of n = 1..5 leaves (thorough: ..8) of 1-byte symbolic items (one 2-byte configuration); proof fully symbolic: Index int64, leaf hash 32 bytes, 0..4 aunts of 32 symbolic bytes, leaf of 0..2 symbolic bytes; Total = n (two thorough configurations with symbolic Total)",
+        "arbitrary cuts": "L = 3 / 4 symbolic bytes cut into 3 / 4 pieces at symbolic cut points (pieces of length zero in every position), genuine proofs over the pieces, delivered through the wire format in a rotated order: the completed set reassembles to exactly the original bytes",
         "part sets": "data of L = 2..6 symbolic bytes, part size 1/2/4; up to 3 adversarial AddPart calls, each a fully symbolic part (index, bytes, proof with <=2 aunts) or a genuine part with one field replaced / transplanted; genuine parts in every rotation with duplicates",
         "unwind": "64 symbolic iterations per branch instruction per frame; none reached",
     },
@@ -87,6 +88,9 @@ PROPS["C01"] = {
         {"dir": "state",
          "quick": ["VP_C06_ValidateLastCommit"],
          "thorough": []},
+        {"dir": "blockchain/v0",
+         "quick": ["VP_C13_Accept"],
+         "thorough": []},
     ],
     "bounds": {
         "commit rule and local voting rules (H2/H3)": "the inductive step of the real consensus.State (see C02): at every BlockStore.SaveBlock the saved block is the one with +2/3 precommits in the commit round, passed validation, its parts match the commit header, the seen commit is for it; ApplyBlock only after SaveBlock; nothing saved without deciding; lock rules L1-L5",
@@ -106,7 +110,7 @@ PROPS["C04"] = {
          "quick": ["VP_C04_Signer_k2", "VP_C04_Signer_k2_symts", "VP_C04_Signer_k2_crash1", "VP_C04_Signer_k2_ioerr"],
          "thorough": ["VP_C04_Signer_k3", "VP_C04_Signer_k2_crash1_symts", "VP_C04_Signer_k2_crash2"]},
         {"dir": "consensus",
-         "quick": ["VP_C02_Step_R1_timeout_lockfocus", "VP_C15_WAL_k3", "VP_C15_WAL_k3_crash1"],
+         "quick": ["VP_C02_Step_R1_timeout_lockfocus", "VP_C15_WAL_k3", "VP_C15_WAL_k3_crash1", "VP_C15_Repair_1", "VP_C15_Repair_2"],
          "thorough": ["VP_C02_Step_R1_timeout", "VP_C15_WAL_k4"]},
     ],
     "bounds": {
@@ -126,7 +130,7 @@ PROPS["C15"] = {
     "groups": [
         {"dir": "consensus",
          "quick": ["VP_C15_Codec_k2", "VP_C15_Codec_k1_flip", "VP_C15_Arbitrary_L0", "VP_C15_Arbitrary_L3", "VP_C15_Arbitrary_L8", "VP_C15_Arbitrary_L10",
-                   "VP_C15_WAL_k3", "VP_C15_WAL_k3_crash1", "VP_C15_Repair_1", "VP_C15_Repair_2", "VP_C15_CatchupAtInitialHeight"],
+                   "VP_C15_WAL_k3", "VP_C15_WAL_k3_crash1", "VP_C15_Repair_1", "VP_C15_Repair_2", "VP_C15_RepairMidCorruption", "VP_C15_CatchupAtInitialHeight"],
          "thorough": ["VP_C15_Codec_k3", "VP_C15_Codec_k2_flip", "VP_C15_Arbitrary_L12", "VP_C15_WAL_k4", "VP_C15_WAL_k4_crash1"]},
         {"dir": "libs/autofile",
          "quick": ["VP_C15_Limits_k4", "VP_C15_ReopenAtIndex"],
@@ -136,6 +140,7 @@ PROPS["C15"] = {
         "codec": "k = 2 (thorough 3) messages (EndHeight / timeoutInfo from a fixed alphabet) framed by the real encoder, stream cut at a symbolic byte offset; one symbolic byte overwritten at a symbolic offset (k = 1, thorough 2); arbitrary buffers of L = 0,3,8,10 (thorough 12) fully symbolic bytes with the length field < 16",
         "repair over lifetimes": "1 and 2 process lifetimes that each append two synced records and die leaving 1, 5 or 9 bytes of a torn record at the end of the WAL; every restart runs the real State.OnStart (catch-up, backup, repairWalFile, reload); afterwards a reader returns every synced record of every lifetime in order",
         "catch-up at the first height": "a chain with initial height 1, 2 or 10 that crashed in its first height with one logged timeout: the real catchupReplay replays it",
+        "repair of damage in the middle": "the start-up marker and four synced records; one byte of the checksum or of the payload of one of the first three records flipped (length field intact); real State.OnStart (catch-up, backup, repairWalFile, reload): a reader afterwards gets exactly the records before the damaged one",
         "rotation + reopen at any index width": "a group directory whose rotated files start at index 0, 8, 98, 997..1000, 9998 or 99998 (the decimal-width boundaries of the %03d suffix; concrete, one path each) is opened by the real OpenGroup, read, written, rotated and reopened: indices recomputed from the directory, every record read back once in order",
         "size limits": "real autofile.Group on the modelled file system with head-size limit 200..600 and total-size limit 300..900 bytes; k = 4 (thorough 5) operations from {synced write of a 100/300/700-byte record, checkHeadSizeLimit, checkTotalSizeLimit}; a later reader must get a suffix that starts at a file boundary and contains everything written since the last rotation",
         "wal": "real BaseWAL + autofile.Group on the modelled file system; histories of k = 3 (thorough 4) operations from {Write, WriteSync, end-of-height (synced), RotateFile, Stop+Start, FlushAndSync}; one simulated crash at any file operation (torn write prefixes, surviving prefix of the unsynced tail chosen at reboot), then reopen with the repair sequence of State.OnStart (backup, repairWalFile, reopen); audit with a fresh group reader and SearchForEndHeight for every height",
@@ -198,6 +203,9 @@ PROPS["C19"] = {
         {"dir": "libs/pubsub/query",
          "quick": ["VP_C19_QueryTimeOperands"],
          "thorough": []},
+        {"dir": "types",
+         "quick": ["VP_C19_EventBusAttributes"],
+         "thorough": []},
         {"dir": "state/indexer/block/kv",
          "quick": ["VP_C19_BlockSearch"],
          "thorough": []},
@@ -207,6 +215,7 @@ PROPS["C19"] = {
     ],
     "bounds": {
         "delivery (H1)": "real pubsub.Server (its loop goroutine scheduled by the engine), n = 2 (thorough 3) subscribers with own or shared queries, buffered with capacity 1, each fast (drains after every publication) or slow (never reads); k = 2..3 (thorough 4) operations from {publish, unsubscribe}; each query's verdict on each publication symbolic in {no match, match, error}; every map-iteration order of the subscription tables",
+        "event bus": "real EventBus on a real pubsub server with the real query parser and matcher: one transaction result with an event of three attributes whose keys come from {empty, sender, recipient} and values from {bob, eve} (and an event with an empty type): the subscriber of transfer.recipient = 'bob' gets the transaction exactly when an attribute says so",
         "time operands of a subscriber's query": "real query.New + Query.Matches (reflect.Value modelled as a box around the operand): operand TIME 2013-05-03T14:45:05Z under each of =, <, <=, >, >=; the event value has a symbolic seconds digit and is written in Z, +00:00, +02:00 or -02:30 form; the verdict must be the comparison of instants",
         "block search (H2b)": "real block indexer (state/indexer/block/kv) on a MemDB: three blocks with a begin-block attribute in {A,B} and an end-block attribute from {2,9,10,100}; five query shapes combining a (possibly empty) range, an equality and a height bound, real parser; reference computed from the values",
         "indexer service (H3)": "real txindex.IndexerService on a real EventBus and kv.TxIndex: two blocks of 0..2 transactions published as the node does; indexing of a block's own events fails or not (arbitrary per block); every committed transaction must be retrievable under its height and position",
@@ -221,8 +230,8 @@ PROPS["C18"] = {
     "files": ["store/store.go", "state/store.go"],
     "groups": [
         {"dir": "store",
-         "quick": ["VP_C18_Save_n3", "VP_C18_Save_n3_crash", "VP_C18_Prune_n4", "VP_C18_Prune_n4_crash", "VP_C18_Prune_n4_parts"],
-         "thorough": ["VP_C18_Prune_n6_crash", "VP_C18_PruneBatchBoundary"]},
+         "quick": ["VP_C18_Save_n3", "VP_C18_Save_n3_crash", "VP_C18_Prune_n4", "VP_C18_Prune_n4_crash", "VP_C18_Prune_n4_parts", "VP_C18_PruneBatchBoundary"],
+         "thorough": ["VP_C18_Prune_n6_crash"]},
         {"dir": "state",
          "quick": ["VP_C18_StatePrune_low", "VP_C18_StatePrune_low_crash", "VP_C18_StatePrune_checkpoint"],
          "thorough": ["VP_C18_StatePrune_checkpoint_crash"]},
@@ -238,7 +247,7 @@ PROPS["C18"] = {
     },
     "stubs": ["database = real tm-db MemDB; batch writes atomic (goleveldb contract), single writes atomic"],
     "outside": ["ABCI responses pruning; more than one change of the set in the window", "two crashes in one scenario", "commit signature verification of stored commits (C07)"],
-    "timeout_quick": 300, "timeout_thorough": 3000,
+    "timeout_quick": 600, "timeout_thorough": 3000,
 }
 
 PROPS["C06"] = {
@@ -398,7 +407,7 @@ PROPS["C02"] = {
     "files": ["consensus/state.go", "consensus/types/height_vote_set.go", "types/vote_set.go"],
     "groups": [
         {"dir": "types",
-         "quick": ["VP_C01_VoteSet_n2_k2_pv", "VP_C01_VoteSet_n2_k3"],
+         "quick": ["VP_C01_VoteSet_n2_k2_pv", "VP_C01_VoteSet_n2_k3", "VP_C01_VoteSet_n2_k5_conflict"],
          "thorough": []},
         {"dir": "privval",
          "quick": ["VP_C04_Signer_k2"],
@@ -422,7 +431,7 @@ PROPS["C03"] = {
     "files": ["consensus/state.go", "config/config.go", "types/validator_set.go", "consensus/types/height_vote_set.go"],
     "groups": [
         {"dir": "consensus",
-         "quick": ["VP_C03_TimeoutsGrow", "VP_C03_RotationFair", "VP_C03_CommitWaitsForBlock", "VP_C02_Step_R2_vote_lockfocus_top"],
+         "quick": ["VP_C03_TimeoutsGrow", "VP_C03_RotationFair", "VP_C03_CommitWaitsForBlock", "VP_C02_Step_R2_vote_lockfocus_top", "VP_C05_Pipeline_n3"],
          "thorough": ["VP_C02_Step_R1_vote_locked", "VP_C02_Step_R1_timeout", "VP_C02_Step_R1_proposal"]},
         {"dir": "consensus/types",
          "quick": ["VP_C03_ClaimedMajorityAdmitsConflictingVote"],
@@ -430,6 +439,7 @@ PROPS["C03"] = {
     ],
     "bounds": {
         "T5b a lagging node can complete a decision that rests on an equivocator's vote": "real HeightVoteSet, 4 validators, node in round 0..3, a prevote or precommit round r <= the node's round: the node saw the equivocator's other vote (nil or block A) first; the conflicting vote for B is refused, a peer's +2/3 claim for B in round r is taken, the vote is then admitted and two more votes complete the majority (concrete, 40 combinations)",
+        "T7 the next height can be proposed": "the commit pipeline harness of C05 with the decision of round 0 completing while the node is in round 0 or 1: the next height starts with the +2/3 precommits of the deciding round as its last commit",
         "T1 timeouts grow": "config.ConsensusConfig.Propose/Prevote/Precommit for every round in [0, 65536), default configuration and configurations with arbitrary deltas in [1 ms, 10 s]",
         "T2 rotation": "3 validators with powers in 1..3 each, starting 0..3 rounds into the rotation: over (total power) rounds each proposes exactly (power) times",
         "T6 precommit-wait flag": "invariant of the step harness: TriggeredTimeoutPrecommit is set only for the round whose precommit-wait timeout was scheduled (otherwise the node would wait in that round's precommit step for ever)",
@@ -445,10 +455,11 @@ PROPS["C14"] = {
     "files": ["statesync/syncer.go", "statesync/snapshots.go", "statesync/chunks.go", "statesync/stateprovider.go"],
     "groups": [
         {"dir": "statesync",
-         "quick": ["VP_C14_Sync_b0", "VP_C14_Sync_b1", "VP_C14_Sync_b2", "VP_C14_Sync_b3", "VP_C14_StateProvider"],
-         "thorough": ["VP_C14_Sync_b4"]},
+         "quick": ["VP_C14_Sync_b0", "VP_C14_Sync_b1", "VP_C14_Sync_b2", "VP_C14_Sync_b3", "VP_C14_StateProvider", "VP_C14_PoolRejectedSender_k3"],
+         "thorough": ["VP_C14_Sync_b4", "VP_C14_PoolRejectedSender_k4"]},
     ],
     "bounds": {
+        "rejected senders (H1b)": "real snapshotPool, two peers, two snapshots, k = 3 (thorough 4) operations from {advertise, RejectPeer, RemovePeer (disconnect)}: a peer once rejected stays rejected, is never offered as a source and its later advertisements are not taken, reconnects included",
         "state provider (H2)": "the real lightClientStateProvider (AppHash, State) on a real light.Client over a genuinely signed 7-block chain whose validator set changes at an arbitrary height 2..7, snapshot height 2..4; consensus parameters served by a stubbed RPC client and checked by the real light/rpc client: the state's three validator sets, app hash and results hash are those of the verified headers; then the real state store is bootstrapped from that state (as node.startStateSync does) and must serve exactly the verified validator sets of H, H+1, H+2 and the verified parameters",
         "restore (H1)": "the real syncer.SyncAny with its fetcher goroutine, snapshot pool and chunk queue (chunk files on the modelled file system, timers on the virtual clock) against a recording application and three peers; advertised sets: {S1 from two peers + S2 from one}, {a snapshot for a height the light client cannot verify + S1}, {a higher snapshot + S1 + S2}; up to 3 (thorough 4) adversarial actions per run drawn from: OfferSnapshot verdict reject / reject-format / reject-sender / abort; ApplySnapshotChunk verdict retry / retry-snapshot / reject-snapshot / abort / refetch+retry / reject-sender+refetch+retry; the restored application reporting a wrong hash, height or version; a peer staying silent, an outsider's chunk arriving first, a wrong-index chunk, a duplicate with other bytes; the peer asked is an arbitrary one of the snapshot's peers",
     },
